@@ -61,8 +61,7 @@ UNIT = dict(
                        (r"input->eof\(\) \|\| !getline\(\*input, token, m_hasTime && i == 2 \? ' ' : '\.'\)", 'env_eof(input) || !env_getline(input, &token)', 1),
                        (r'input->eof\(\) \|\| !getline\(\*input, token, LENGTH_SEPARATOR\)', 'env_eof(input) || !env_getline(input, &token)', 1),
                        (r'token == NULL_VALUE', 'env_tok_null(input, token)', 2),
-                       (r'parseInt\(token\.c_str\(\), 10, 0, 2099, &result\)', 'env_tok_int(input, token, 0, 2099, &result)', 1),
-                       (r'parseInt\(token\.c_str\(\), 10, 0, 59, &result\)', 'env_tok_int(input, token, 0, 59, &result)', 1)]),
+                       (r'parseInt\(token\.c_str\(\), 10, ([^,]+), ([^,]+), &result\)', lambda m: 'env_tok_int(input, token, %s, %s, &result)' % (m.group(1), m.group(2)), 2)]),
         dict(file=DT_CPP, name='DateTimeDataType::readSymbols', cname='DTT_readSymbols', self='DTT',
              stream_out=dict(vars=['output'], str_macros=('NULL_VALUE',), min=15)),
     ],
